@@ -18,6 +18,7 @@ Geometry keys used here (other properties can reuse the builder with the same ke
                         aperture edge, total intensity, relative mode weights
   pad [p0, p1]          requested obj_padding_px
   descan                "A" (no_shift, no dataset optimiser) | "B_constant" | "B_plane"
+  stale {energy, thick_scale, via, re_preprocess}   optional live-edit history, see make_ptycho
   clip                  value of the dataset constraint clip_scan_positions (library default True)
   seed                  numpy seed for everything random"""
 
@@ -223,26 +224,60 @@ def make_dataset(case, intensities):
     return pdset
 
 
-def make_ptycho(case, pdset, obj_array=None):
-    """Ptychography.from_models + preprocess.  obj_array None -> uniform object (used to ask the library
-    for the object shape)."""
+def _probe_model(case, energy):
+    """Any probe of the right shape: the ground truth is installed later through the public setter."""
     q = Q()
     R, C = case["roi"]
+    p0 = np.zeros((int(case["M"]), R, C), dtype=np.complex64)
+    p0[:, 0, 0] = 1.0
+    return q.ProbePixelated.from_array(
+        probe_array=p0, probe_params={"energy": float(energy)}, rng=int(case["seed"]) % (2**31)
+    )
+
+
+def make_ptycho(case, pdset, obj_array=None, val=None):
+    """Ptychography.from_models + preprocess.  obj_array None -> uniform object (used to ask the library
+    for the object shape).  val = {"ratio", "mode"} -> validation split passed to preprocess.
+
+    case["stale"] (optional) describes a live-edit history: the object is first built and preprocessed
+    with stale physical parameters (another beam energy and/or scaled slice thicknesses, as left over from
+    a template script), which are then corrected on the LIVE object through public setters
+    (probe_model.probe_params = {"energy": E} | ptycho.probe_model = <model with the right energy>;
+    ptycho.slice_thicknesses = [...]), optionally followed by a second public preprocess()."""
+    q = Q()
     S = int(case["S"])
     thick = list(case["thick"]) if S > 1 else None
     seed = int(case["seed"]) % (2**31)
+    stale = case.get("stale") or {}
+    E = float(case["energy"])
+    E0 = float(stale["energy"]) if stale.get("energy") else E
+    thick0 = thick
+    if thick is not None and stale.get("thick_scale"):
+        thick0 = [float(t) * float(stale["thick_scale"]) for t in thick]
     if obj_array is None:
-        om = q.ObjectPixelated.from_uniform(num_slices=S, slice_thicknesses=thick, obj_type=case["obj_type"], rng=seed)
+        om = q.ObjectPixelated.from_uniform(num_slices=S, slice_thicknesses=thick0, obj_type=case["obj_type"], rng=seed)
     else:
-        om = q.ObjectPixelated.from_array(obj_array, slice_thicknesses=thick, obj_type=case["obj_type"], rng=seed)
-    # any probe of the right shape: the ground truth is installed later through the public setter
-    p0 = np.zeros((int(case["M"]), R, C), dtype=np.complex64)
-    p0[:, 0, 0] = 1.0
-    pm = q.ProbePixelated.from_array(probe_array=p0, probe_params={"energy": float(case["energy"])}, rng=seed)
+        om = q.ObjectPixelated.from_array(obj_array, slice_thicknesses=thick0, obj_type=case["obj_type"], rng=seed)
     pt = q.Ptychography.from_models(
-        dset=pdset, obj_model=om, probe_model=pm, detector_model=q.DetectorPixelated(), rng=seed, verbose=0
+        dset=pdset, obj_model=om, probe_model=_probe_model(case, E0), detector_model=q.DetectorPixelated(), rng=seed, verbose=0
     )
-    pt.preprocess(obj_padding_px=tuple(int(v) for v in case["pad"]), plot_rotation=False, plot_com=False)
+    kw = {}
+    if val and float(val.get("ratio", 0)) > 0:
+        kw = {"val_ratio": float(val["ratio"]), "val_mode": val["mode"]}
+    pad = tuple(int(v) for v in case["pad"])
+    pt.preprocess(obj_padding_px=pad, plot_rotation=False, plot_com=False, **kw)
+    edited = False
+    if E0 != E:
+        if stale.get("via") == "swap_probe_model":
+            pt.probe_model = _probe_model(case, E)
+        else:
+            pt.probe_model.probe_params = {"energy": E}
+        edited = True
+    if thick0 != thick:
+        pt.slice_thicknesses = list(thick)
+        edited = True
+    if edited and stale.get("re_preprocess"):
+        pt.preprocess(obj_padding_px=pad, plot_rotation=False, plot_com=False, **kw)
     return pt
 
 
